@@ -2412,7 +2412,11 @@ func (db *DatabaseCollectionWithUser) storeOldBodyInRevTreeAndUpdateCurrent(ctx 
 	}
 	// Store the new revision body into the doc:
 	doc.setRevisionBody(ctx, newRevID, newDoc, newDocHasAttachments)
-	doc.SetAttachments(newDoc.Attachments())
+	// The doc's attachments belong to its current revision: a new revision that doesn't become current (a conflicting,
+	// non-winning branch) must not replace them. Its own attachments are stored with its body (see setRevisionBody).
+	if doc.GetRevTreeID() == newRevID {
+		doc.SetAttachments(newDoc.Attachments())
+	}
 	doc.MetadataOnlyUpdate = newDoc.MetadataOnlyUpdate
 
 	if doc.GetRevTreeID() == newRevID {
@@ -2738,7 +2742,8 @@ func (col *DatabaseCollectionWithUser) documentUpdateFunc(
 
 	prevCurrentRev := doc.GetRevTreeID()
 	doc.updateWinningRevAndSetDocFlags(ctx)
-	newDocHasAttachments := len(newAttachments) > 0
+	// a revision has attachments whether it uploads them (newAttachments) or carries them over from an ancestor as stubs
+	newDocHasAttachments := len(newAttachments) > 0 || len(newDoc.Attachments()) > 0
 	col.storeOldBodyInRevTreeAndUpdateCurrent(ctx, doc, prevCurrentRev, newRevID, newDoc, newDocHasAttachments)
 
 	// For events where we need to generate a new version, generate the HLV current version now - before the
@@ -3359,12 +3364,13 @@ func getAttachmentIDsForLeafRevisions(ctx context.Context, db *DatabaseCollectio
 	maps.Copy(leafAttachments, currentAttachments)
 
 	// Grab leaf revisions that have attachments and aren't the currently being added rev
-	// Currently handled rev won't have information set properly on it yet so we handle this above
+	// Currently handled rev won't have information set properly on it yet so we handle this above - unless it did not
+	// become the current revision, in which case its attachments are stored with its body like any other non-winning leaf.
 	// Can safely ignore the getInfo error as the only event this should happen in is if there is no entry for the given
 	// rev, however, given we have just got that rev from GetLeavesFiltered we can be sure that rev exists in history
 	documentLeafRevisions := doc.History.GetLeavesFiltered(func(revId string) bool {
 		revInfo, _ := doc.History.getInfo(revId)
-		return revInfo.HasAttachments && revId != newRevID
+		return revInfo.HasAttachments && (revId != newRevID || revId != doc.GetRevTreeID())
 	})
 
 	for _, leafRevision := range documentLeafRevisions {
